@@ -54,12 +54,13 @@ class _Continue(Exception):
 # --------------------------------------------------------------------------- paths and obligations
 
 class Obligation:
-    __slots__ = ("name", "kind", "status", "model", "detail", "pc_size", "time", "path_id", "reason")
+    __slots__ = ("name", "kind", "status", "model", "detail", "pc_size", "time", "path_id", "reason", "backend")
 
     def __init__(self, name, kind):
         self.name, self.kind = name, kind
         self.status, self.model, self.detail, self.pc_size, self.time = None, None, "", 0, 0.0
         self.path_id, self.reason = None, ""
+        self.backend = "z3"
 
 
 class Path:
@@ -84,7 +85,7 @@ class Path:
     # -- symbols
     def fresh(self, prefix="v", sort=None):
         self.counter += 1
-        return z3.Const(f"{prefix}!{self.counter}", sort or V.Val)
+        return z3.Const(f"{prefix}!{self.counter}", V.Val if sort is None else sort)
 
     def fresh_sv(self, prefix="v"):
         return SV(self.fresh(prefix))
@@ -169,7 +170,14 @@ class Path:
             s.push()
             s.set("timeout", self.ctx.query_timeout_ms)
             s.add(z3.Not(f))
-            r = s.check()
+            r = None
+            if self.ctx.prefer_cvc5:
+                from .backends import cvc5_check
+                if cvc5_check(s.to_smt2(), self.ctx.query_timeout_ms) == "unsat":
+                    r = z3.unsat
+                    ob.backend = "cvc5"
+            if r is None:
+                r = s.check()
             if r == z3.unsat:
                 ob.status = "unsat"
             elif r == z3.sat:
@@ -178,6 +186,15 @@ class Path:
             else:
                 ob.status = "unknown"
                 ob.reason = s.reason_unknown()
+                # second back end: cvc5 on the same query (SMT-LIB export of pc + negated goal)
+                if self.ctx.use_cvc5:
+                    from .backends import cvc5_check
+                    r2 = cvc5_check(s.to_smt2(), self.ctx.query_timeout_ms * 2)
+                    if r2 == "unsat":
+                        ob.status, ob.backend = "unsat", "cvc5"
+                    elif r2 == "sat":
+                        ob.status, ob.backend, ob.model = "sat", "cvc5", {}
+                        ob.reason = "cvc5 answered sat (z3: unknown); no model extracted"
                 if self.ctx.keep_smt2:
                     ob.detail += "\n" + s.to_smt2()
             s.pop()
@@ -219,6 +236,8 @@ class Ctx:
         self.max_symbolic_while = 3
         self.deadline = None
         self.keep_smt2 = False
+        self.use_cvc5 = True
+        self.prefer_cvc5 = False     # string-heavy contracts: ask cvc5 first, z3 for models
         self.contracts = {}        # key (module, qualname) -> call-site contract
         self.inputs = {}           # name -> z3 term (symbolic inputs to concretise from models)
         self.models = None         # models module (set by driver)
@@ -334,6 +353,9 @@ class Interp:
         """Python `a == b` -> bool or BoolRef."""
         if not deep_symbolic(a) and not deep_symbolic(b):
             return a == b
+        for x, y in ((a, b), (b, a)):
+            if isinstance(x, Obj) and x.cls.__name__ == "CharSetOf":
+                return self.models.charset_eq(self, x, y)
         if isinstance(a, Obj) and isinstance(b, Obj):
             if V.REG.info(a.cls).identity or not hasattr(a.cls, "__eq__") or a.cls.__eq__ is object.__eq__:
                 return a is b
